@@ -47,6 +47,9 @@ type c13world struct {
 	// leaves created so far (candidates for an equal second occurrence) and the number of such occurrences
 	leaves    []*c13m
 	dupLeaves int
+	// leaves of the user's own non-comparable node type, by id
+	userLeaves map[int]*c13m
+	nUser      int
 }
 
 type c13interp struct {
@@ -147,10 +150,19 @@ func (w *c13world) gen(d int) *c13m {
 			return &c13m{id: e.id, sel: -1, kind: e.kind, node: e.node}
 		}
 		defer func() { w.leaves = append(w.leaves, m) }()
-		if k == 0 {
+		switch {
+		case k == 0:
 			m.kind = 1
 			m.node = ast.EmptyNode(parsley.Pos(m.id))
-		} else {
+		case w.r.Intn(6) == 0:
+			// a leaf of the USER's own node type: a value struct with a slice in it (not comparable with ==), the node a
+			// hand-written terminal may return; the library must not need to compare nodes in order to walk, check,
+			// transform or evaluate a tree
+			m.node = c13valLeaf{id: m.id, tags: []string{"user", "leaf"}}
+			w.userLeaves[m.id] = m
+			w.nUser++
+			return m
+		default:
 			m.node = ast.NewTerminalNode(fmt.Sprintf("S%d", m.id), "t", m.id, parsley.Pos(m.id), parsley.Pos(m.id))
 		}
 		w.byNode[m.node] = m
@@ -254,7 +266,7 @@ func c13shape(w *c13world, nd parsley.Node) string {
 			ks = append(ks, c13shape(w, k))
 		}
 		id := 0
-		if m := w.byNode[nd]; m != nil {
+		if m := w.lookup(nd); m != nil {
 			id = m.id
 		}
 		return fmt.Sprintf("N%d(%s)", id, strings.Join(ks, " "))
@@ -265,15 +277,38 @@ func c13shape(w *c13world, nd parsley.Node) string {
 	if strings.HasPrefix(nd.Token(), "T") {
 		return nd.Token()
 	}
-	if m := w.byNode[nd]; m != nil {
+	if m := w.lookup(nd); m != nil {
 		return fmt.Sprintf("L%d", m.id)
 	}
 	return "?"
 }
 
+// c13valLeaf: a terminal node type of the user's own - a VALUE type that cannot be compared (it carries a slice)
+type c13valLeaf struct {
+	id   int
+	tags []string
+}
+
+func (l c13valLeaf) Token() string          { return "t" }
+func (l c13valLeaf) Schema() interface{}    { return fmt.Sprintf("S%d", l.id) }
+func (l c13valLeaf) Pos() parsley.Pos       { return parsley.Pos(l.id) }
+func (l c13valLeaf) ReaderPos() parsley.Pos { return parsley.Pos(l.id) }
+func (l c13valLeaf) Value() interface{}     { return l.id }
+
+// lookup finds the mirror of a node (user leaves cannot be map keys)
+func (w *c13world) lookup(nd parsley.Node) *c13m {
+	if ul, ok := nd.(c13valLeaf); ok {
+		return w.userLeaves[ul.id]
+	}
+	if nd == nil {
+		return nil
+	}
+	return w.byNode[nd]
+}
+
 // c13tree generates the tree of a case; the same caseSeed gives an identical twin (same shape, ids and interpreters)
 func c13tree(caseSeed int64, a *run.Acc) (*c13world, *c13m) {
-	w := &c13world{r: rand.New(rand.NewSource(caseSeed)), failAt: -1, byNode: map[parsley.Node]*c13m{}}
+	w := &c13world{r: rand.New(rand.NewSource(caseSeed)), failAt: -1, byNode: map[parsley.Node]*c13m{}, userLeaves: map[int]*c13m{}}
 	w.allowNil = caseSeed%3 == 0
 	depth := 1 + w.r.Intn(6)
 	switch caseSeed % 41 {
@@ -299,7 +334,7 @@ func c13shapeSchemas(w *c13world, nd parsley.Node) string {
 		return "<nil>"
 	}
 	s := fmt.Sprintf("%s:%v", nd.Token(), nd.Schema())
-	if m := w.byNode[nd]; m != nil {
+	if m := w.lookup(nd); m != nil {
 		s = fmt.Sprintf("#%d:%v", m.id, nd.Schema())
 	}
 	if nt, ok := nd.(*ast.NonTerminalNode); ok {
@@ -319,6 +354,18 @@ func c13exec(j run.Job, a *run.Acc) {
 		if !a.Begin() {
 			continue
 		}
+		c13one(j, a, caseSeed)
+	}
+}
+
+// c13one runs one case; a panic anywhere in the library's passes is a violation of its own
+func c13one(j run.Job, a *run.Acc, caseSeed int64) {
+	defer func() {
+		if e := recover(); e != nil {
+			a.Violate("panic", "panic", map[string]any{"case_seed": caseSeed, "panic": fmt.Sprint(e)})
+		}
+	}()
+	{
 		w, root := c13tree(caseSeed, a)
 		var order []*c13m // post-order of the tree that Walk is expected to follow
 		listRoot := false
@@ -343,6 +390,7 @@ func c13exec(j run.Job, a *run.Acc) {
 		a.Count("nodes", int64(nNodes))
 		a.Count("nodes bound to the library's own interpreter.Select", int64(w.nSel))
 		a.Count("leaves equal to an earlier leaf of the same tree (same object / same empty position)", int64(w.dupLeaves))
+		a.Count("leaves of a user-defined, non-comparable node type", int64(w.nUser))
 
 		// ---- Walk: post-order, every node once, stops right after the first true
 		total := nNodes
@@ -354,7 +402,7 @@ func c13exec(j run.Job, a *run.Acc) {
 		res := parsley.Walk(rootNode, func(nd parsley.Node) bool {
 			if _, isList := nd.(ast.NodeList); isList {
 				visited = append(visited, "list")
-			} else if m := w.byNode[nd]; m != nil {
+			} else if m := w.lookup(nd); m != nil {
 				visited = append(visited, fmt.Sprint(m.id))
 			} else {
 				visited = append(visited, "?")
